@@ -570,6 +570,29 @@ def HOp.binds : HOp → Option String
   | .derive h _ _ _ => some h
   | _ => none
 
+/-! ### factory entry points
+
+`BuildAdjacencyMapGraph(adj)` and `util.BuildGraph(constructor, adj)` both do, for every key of the Go map,
+`AddNode(src)` and then `AddNode(dst); AddEdge(src, dst)` for its out-list (empty and nil lists alike: the key is still a
+node). `FetchDirectedGraph` feeds every (start, end) row of the relationship query to `CSRDigraphBuilder.AddEdge`. -/
+
+/-- an adjacency description: the map's entries in the order they are visited (the result does not depend on it) -/
+abbrev Desc := List (Nat × List Nat)
+
+def descOps (desc : Desc) : List Op :=
+  desc.flatMap (fun kv => Op.node kv.1 :: kv.2.flatMap (fun dst => [Op.node dst, Op.edge 0 kv.1 dst]))
+
+/-- the rows `FetchDirectedGraph` scans: one `AddEdge` per selected relationship -/
+def fetchOps (sel : Edge → Bool) (edges : List Edge) : List Op :=
+  (edges.filter sel).map (fun e => Op.edge e.id e.start e.stop)
+
+/-- insertion sort keeping repetitions (the canonical order factory-built graphs are observed in) -/
+def sinsertD (x : Nat) : List Nat → List Nat
+  | [] => [x]
+  | y :: ys => if x ≤ y then x :: y :: ys else y :: sinsertD x ys
+
+def sortD (xs : List Nat) : List Nat := xs.foldl (fun acc x => sinsertD x acc) []
+
 /-! ### NumEdges / Degrees / Dimensions -/
 
 /-- `adjacencyMapDigraph.NumEdges` (hooks/C14-fix2.patch): the cardinalities of the outbound index summed — an
